@@ -28,11 +28,11 @@ Unsafe == {"script", "style"}
 
 CONSTANTS
   \* @type: Set(Str);
-  Explicit,      \* explicitly allowed elements
+  ExplicitSet,      \* explicitly allowed elements
   \* @type: Set(Str);
   PatMatched,    \* names matched by some element pattern
   \* @type: Set(Str);
-  BareOK,        \* may be emitted without attributes
+  BareSet,        \* may be emitted without attributes
   \* @type: Set(Str);
   SkipSet,       \* skip-content set
   \* @type: Bool;
@@ -43,7 +43,7 @@ CONSTANTS
   AllowComments
 
 ConstInit ==
-  /\ Explicit \in SUBSET Names /\ PatMatched \in SUBSET Names /\ BareOK \in SUBSET Names /\ SkipSet \in SUBSET Names
+  /\ ExplicitSet \in SUBSET Names /\ PatMatched \in SUBSET Names /\ BareSet \in SUBSET Names /\ SkipSet \in SUBSET Names
   /\ AllowUnsafe \in BOOLEAN /\ AddSpaces \in BOOLEAN /\ AllowComments \in BOOLEAN
 
 VARIABLES
@@ -60,7 +60,7 @@ VARIABLES
   \* @type: Seq($tok);
   emitted
 
-Known(n) == n \in Explicit \/ n \in PatMatched
+Known(n) == n \in ExplicitSet \/ n \in PatMatched
 Blocked(n) == n \in Unsafe /\ ~AllowUnsafe
 
 \* @type: Set($tok);
@@ -82,13 +82,13 @@ Pop == SubSeq(stack, 1, Len(stack) - 1)
 \* @type: ($tok) => Bool;
 StartTag(tok) ==
   /\ tok.t = "start" /\ mrst' = tok.n
-  /\ mkept' = (~Blocked(tok.n) /\ Known(tok.n) /\ ~(tok.a \in {"none", "zero"} /\ tok.n \notin BareOK) /\ ~skip)
+  /\ mkept' = (~Blocked(tok.n) /\ Known(tok.n) /\ ~(tok.a \in {"none", "zero"} /\ tok.n \notin BareSet) /\ ~skip)
   /\ IF Blocked(tok.n) THEN UNCHANGED <<skip, cnt, stack>> /\ emitted' = <<>>                       \* StartBlocked
      ELSE IF ~Known(tok.n) THEN
             /\ IF tok.n \in SkipSet /\ tok.n \notin Voids THEN skip' = TRUE /\ cnt' = cnt + 1        \* StartUnknownSkip
                ELSE UNCHANGED <<skip, cnt>>                                                           \* StartUnknown
             /\ UNCHANGED stack /\ emitted' = SpaceIf
-     ELSE IF tok.a \in {"none", "zero"} /\ tok.n \notin BareOK THEN
+     ELSE IF tok.a \in {"none", "zero"} /\ tok.n \notin BareSet THEN
             /\ stack' = IF tok.n \in Voids THEN stack ELSE Append(stack, [n |-> tok.n, kept |-> FALSE])  \* StartBareVoid / StartBareDropped
             /\ UNCHANGED <<skip, cnt>> /\ emitted' = SpaceIf
      ELSE /\ stack' = IF TopNamed(tok.n) THEN Append(stack, [n |-> tok.n, kept |-> TRUE]) ELSE stack      \* StartKept / StartHidden
@@ -110,10 +110,10 @@ EndTag(tok) ==
 \* @type: ($tok) => Bool;
 SelfTag(tok) ==
   /\ tok.t = "self" /\ mrst' = tok.n /\ UNCHANGED <<skip, cnt, stack>>
-  /\ mkept' = (~Blocked(tok.n) /\ Known(tok.n) /\ ~(tok.a \in {"none", "zero"} /\ tok.n \notin BareOK) /\ ~skip)
+  /\ mkept' = (~Blocked(tok.n) /\ Known(tok.n) /\ ~(tok.a \in {"none", "zero"} /\ tok.n \notin BareSet) /\ ~skip)
   /\ IF Blocked(tok.n) THEN emitted' = <<>>
      ELSE IF ~Known(tok.n) THEN emitted' = SpaceIf
-     ELSE IF tok.a \in {"none", "zero"} /\ tok.n \notin BareOK THEN emitted' = SpaceIf
+     ELSE IF tok.a \in {"none", "zero"} /\ tok.n \notin BareSet THEN emitted' = SpaceIf
      ELSE emitted' = Show(Clean(tok))
 
 \* @type: ($tok) => Bool;
@@ -140,11 +140,11 @@ EmittedOK == \A i \in DOMAIN emitted :
    /\ emitted[i].t = "comment" => AllowComments
    /\ emitted[i].t # "doctype"
    /\ ~AllowUnsafe => (emitted[i].n \notin Unsafe /\ emitted[i].t # "raw")
-   /\ (emitted[i].t \in {"start", "self"} /\ emitted[i].a = "none") => emitted[i].n \in BareOK
+   /\ (emitted[i].t \in {"start", "self"} /\ emitted[i].a = "none") => emitted[i].n \in BareSet
 \* the remembered start tags: dropped entries are known, never-bare, non-void elements; markers are known elements
 StackOK == \A i \in DOMAIN stack :
    /\ Known(stack[i].n)
-   /\ ~stack[i].kept => (stack[i].n \notin BareOK /\ stack[i].n \notin Voids)
+   /\ ~stack[i].kept => (stack[i].n \notin BareSet /\ stack[i].n \notin Voids)
 IndInv == EmittedOK /\ StackOK
 
 IndInit ==
